@@ -368,6 +368,10 @@ impl FixtureDatabase {
                                 if self.file_cache.contains_key(&canonical) {
                                     reanalyze_as_plugin.insert(canonical.clone());
                                 }
+                                // If its imports were looked at before it became a plugin
+                                // module, look at them again: plugin status propagates
+                                // along the whole import chain, whatever the visiting order.
+                                processed_files.remove(&canonical);
                             }
 
                             // Queue it even when it is cached already (a notification may
@@ -399,6 +403,8 @@ impl FixtureDatabase {
                                 if self.file_cache.contains_key(&canonical) {
                                     reanalyze_as_plugin.insert(canonical.clone());
                                 }
+                                // (see above: propagate along the chain in any visiting order)
+                                processed_files.remove(&canonical);
                             }
 
                             // Queue it even when it is cached already (a notification may
